@@ -1,6 +1,6 @@
 use hexf::hexf64;
 
-use crate::{consts::LN_2, TwoFloat};
+use crate::{arithmetic::fast_two_sum, consts::LN_2, TwoFloat};
 
 // 1/ln(2)
 const FRAC_1_LN_2: TwoFloat = TwoFloat {
@@ -1054,10 +1054,10 @@ impl TwoFloat {
             if k == 0.0 {
                 r1
             } else {
-                Self {
-                    hi: mul_pow2(r1.hi, k as i32),
-                    lo: mul_pow2(r1.lo, k as i32),
-                }
+                // Below the normal range the scaled low word is rounded
+                // separately and can land exactly on half an ulp of an odd
+                // high word, so renormalise (a no-op when nothing rounds).
+                fast_two_sum(mul_pow2(r1.hi, k as i32), mul_pow2(r1.lo, k as i32))
             }
         }
     }
